@@ -79,6 +79,8 @@ type sweepCase struct {
 	Feature map[string]int    `json:"-"`
 }
 
+const defaultSweepConfig = "schema:\n  - \"*.graphqls\"\nexec:\n  filename: graph/generated.go\n  package: graph\nmodel:\n  filename: graph/models_gen.go\n  package: graph\nresolver:\n  layout: follow-schema\n  dir: graph\n  package: graph\n"
+
 // GenConfig draws one configuration (layouts, worker_limit, model placement, the boolean options).
 func GenConfig(r *gen.Rand) string {
 	layout := gen.Pick(r, []string{"single-file", "follow-schema"})
@@ -312,7 +314,11 @@ func Run(c *gen.Ctx) error {
 	pinned := &sweepCase{Config: GenConfig(gen.NewRand(7)), Schema: map[string]string{"a.graphqls": "scalar Custom\ntype user_profile { a: Int }\ntype UserProfile { b: Int }\nunion Either = user_profile | UserProfile\ntype Query { one: user_profile two: UserProfile either: Either }\n"}}
 	pinned2 := &sweepCase{Config: GenConfig(gen.NewRand(8)), Schema: map[string]string{"a.graphqls": "scalar Custom\ntype Query { f(_: Int): Int }\n"}}
 	pinned3 := &sweepCase{Config: GenConfig(gen.NewRand(9)), Schema: map[string]string{"a.graphqls": "scalar Custom\ntype Thing { _1: Int }\ntype Query { thing: Thing }\n"}}
-	cases = append(cases, pinned, pinned2, pinned3)
+	// two more kept findings, pinned: a field that returns a root type while root models are omitted, and value-typed
+	// struct fields around a cycle of three types
+	pinned4 := &sweepCase{Config: defaultSweepConfig + "omit_root_models: true\n", Schema: map[string]string{"a.graphqls": "type Query { a: Int self: Query }\n"}}
+	pinned5 := &sweepCase{Config: defaultSweepConfig + "struct_fields_always_pointers: false\n", Schema: map[string]string{"a.graphqls": "type A { b: B! }\ntype B { c: C! }\ntype C { a: A! }\ntype Query { a: A }\n"}}
+	cases = append(cases, pinned, pinned2, pinned3, pinned4, pinned5)
 	cases = append(cases, idiomProjects()...)
 	nSweep = len(cases)
 	errs := make([]error, nSweep)
@@ -353,6 +359,20 @@ func Run(c *gen.Ctx) error {
 			if sc.Stage != "" {
 				meta.Direct = append(meta.Direct, gen.DirectFinding{Signature: "digit-after-leading-underscores-gives-identifier-starting-with-a-digit",
 					What: "type Thing { _1: Int }: " + sc.Stage + " failed: " + sc.Output, Replay: sc})
+			}
+			continue
+		}
+		if sc == pinned4 {
+			if sc.Stage != "" {
+				meta.Direct = append(meta.Direct, gen.DirectFinding{Signature: "field-of-root-type-with-omitted-root-models-panics",
+					What: "omit_root_models: true with type Query { a: Int self: Query }: " + sc.Stage + " failed: " + sc.Output, Replay: sc})
+			}
+			continue
+		}
+		if sc == pinned5 {
+			if sc.Stage != "" {
+				meta.Direct = append(meta.Direct, gen.DirectFinding{Signature: "value-typed-cycle-of-three-types",
+					What: "struct_fields_always_pointers: false with type A { b: B! } type B { c: C! } type C { a: A! }: " + sc.Stage + " failed: " + sc.Output, Replay: sc})
 			}
 			continue
 		}
